@@ -291,6 +291,32 @@ def run(shard, ctx):
                         ctx.fail("C13:writesame16.execute_count_%d" % len(dev0.calls), "writesame16(ndob=1) without block size: %d commands" % len(dev0.calls), {"method": "writesame16"})
             fault_round(ctx, c, setname, dict(required_args(c, rng)), rng)
             if not c.custom:
+                # the optional arguments given explicitly with their documented default values (what a forwarding wrapper does):
+                # the same command as with the arguments left out
+                for variant in range(3 if c.xfer == "ata" else 1):
+                    req = dict(required_args(c, rng))
+                    if c.xfer == "ata" and variant:
+                        req.update({"t_length": 3 if variant == 1 else 0, "byte_block": 1, "t_type": 0})
+                    devs, cdbs, errs = [], [], []
+                    for explicit in (False, True):
+                        aa = dict(req)
+                        if explicit:
+                            for k2, v2 in harness.defaults(c).items():
+                                if k2 not in aa and k2 != "blocksize":
+                                    aa[k2] = v2
+                        d0 = harness.Recorder(getattr(E, setname))
+                        try:
+                            harness.facade_call(c, harness.make_facade(d0, 512), dict(aa))
+                            errs.append(None)
+                        except Exception as e:  # noqa: BLE001
+                            errs.append(e)
+                        cdbs.append([bytes(x[0].cdb) for x in d0.calls])
+                    ctx.case(("explicit-defaults", c.facade, setname, variant), True)
+                    ctx.count("calls_with_explicit_defaults")
+                    if cdbs[0] != cdbs[1] or (errs[0] is None) != (errs[1] is None):
+                        ctx.fail("C13:%s.explicit_default_differs" % c.facade, "%s with its optional arguments given explicitly at their documented defaults: %s / sent %s; with them left out: %s / sent %s"
+                                 % (c.facade, type(errs[1]).__name__ if errs[1] else "ok", [x.hex() for x in cdbs[1]], type(errs[0]).__name__ if errs[0] else "ok", [x.hex() for x in cdbs[0]]),
+                                 {"method": c.facade, "table": setname, "args": req}, exc=errs[1])
                 # consecutive calls of one method whose wide arguments differ by a multiple of 2**61-1 (equal hash()): each call's
                 # own argument reaches its CDB
                 for seq in harness.hash_collision_cases(c, rng):
@@ -366,7 +392,8 @@ def run(shard, ctx):
                         state["left"] = bytes(cmd.datain) if cmd.datain is not None else None
 
                     dev = harness.Recorder(getattr(E, setname), fill)
-                    s = harness.make_facade(dev)
+                    SUBCLASSED[0] += 1
+                    s = hooked_facade(dev) if SUBCLASSED[0] % 2 else harness.make_facade(dev)
                     del events[:]
                     label = c.facade + (":%d" % c.facade_fixed["service_action"] if c.facade_fixed else "")
                     rep_key = (label, setname, sub, harness.args_repr(req) if not c.custom else repr(req))
@@ -427,6 +454,12 @@ def run(shard, ctx):
                         continue
                     if wname and bytes(sent.dataout) != bytes(a[wname]):
                         ctx.fail("C13:%s.dataout_not_the_callers_data" % c.facade, "the data-out buffer sent (%d bytes) is not the data the caller passed (%d bytes)" % (len(sent.dataout), len(a[wname])), wit)
+                    if hasattr(s, "seen"):
+                        # the application's subclass of the facade overrides execute() (logging, retries, mirroring): every method
+                        # goes through it, once, with the command the device gets
+                        ctx.count("calls_through_a_facade_subclass")
+                        if len(s.seen) != 1 or s.seen[0] is not sent:
+                            ctx.fail("C13:%s.facade_subclass_execute_bypassed" % c.facade, "%s: the subclass's execute() saw %d commands, the device 1" % (c.facade, len(s.seen)), wit)
                     # identity
                     if cmd is not sent:
                         ctx.fail("C13:%s.returned_other_object" % c.facade, "facade returned another object than it sent", wit)
@@ -661,6 +694,24 @@ def run_attached(shard, ctx):
                         chk.update(c.facade_fixed)
                         for mech, msg in harness.check_cdb(c, log[0].cdb, chk):
                             ctx.fail("C13:%s.attached.cdb.%s" % (c.facade, mech), "%s on %s: %s" % (c.facade, setname, msg), dict(wit, cdb=bytes(log[0].cdb)))
+
+
+SUBCLASSED = [0]
+
+
+def hooked_facade(dev, blocksize=0):
+    """a facade object of an application subclass that overrides execute() the documented way: pass the command on"""
+    from pyscsi.pyscsi.scsi import SCSI
+
+    class Hooked(SCSI):
+        def execute(self, cmd, en_raw_sense=False):
+            self.seen.append(cmd)
+            self.device.execute(cmd, en_raw_sense=en_raw_sense)
+
+    s = Hooked(None, blocksize)
+    s.seen = []
+    s.device = dev
+    return s
 
 
 def run_own_tables(shard, ctx):
